@@ -105,3 +105,8 @@ Fixpoint send_v2 (size : Z) (mine : digest) (sent : list Z) (as_ : list ack) : b
   end.
 
 End Protocol.
+
+(* ---- the unit decisions, concretely (digest = its 16 bytes): used by the correspondence
+   check to tie [deq] and the integer comparison of the model to the real functions ---- *)
+Definition md5_accept (local delivered : list byte) : bool := list_eqb local delivered.
+Definition int_ack_accept (expect got : Z) : bool := (expect =? got)%Z.
